@@ -567,6 +567,7 @@ func init() {
 		"runtime.Caller": func(caller *frame, fn *ssa.Function, args []value) value {
 			return tuple{uintptr(0), "", 0, false}
 		},
+		"k8s.io/apimachinery/pkg/util/runtime.GetCaller": func(caller *frame, fn *ssa.Function, args []value) value { return "" },
 		"os.Getenv":                        func(caller *frame, fn *ssa.Function, args []value) value { return "" },
 		"sync/atomic.LoadInt32":            atomicLoad,
 		"sync/atomic.LoadInt64":            atomicLoad,
